@@ -108,7 +108,10 @@ Section S.
       inversion E. reflexivity.
     - destruct (maybe_check_args_terminator fl (Pair params tl)) as [[]|]; cbn [bind] in E; [|discriminate E].
       destruct params as [|[hb|] ptl]; cbn [ar_hint hint_bytes]; try (inversion E; reflexivity).
-      destruct (Nat.leb (length hb) 32); inversion E; reflexivity.
+      destruct hb as [|b0 bt].
+      + cbn in E |- *. inversion E; reflexivity.
+      + change (Nat.eqb (length (b0 :: bt)) 0) with false. cbn [negb andb].
+        destruct (Nat.leb (length (b0 :: bt)) 32); inversion E; reflexivity.
   Qed.
 
   Lemma create_coin_whitelisted : existsb (N.eqb CREATE_COIN) opcode_whitelist = true.
@@ -470,14 +473,12 @@ Section LK.
   (* lookup of any spent coin of an accepted list without spend-level extras returns its own puzzle and solution *)
   Lemma lookup_native : forall iter ret st m ex sl r s l e term,
     native_loop run valid_key H K iter ret st m ex sl fl = Ok (r, s, l, e, term) ->
-    no_extras iter ->
     forall f p pz am sol, In (p, pz, am, sol) (spend_tuples iter) -> matches H f (p, pz, am, sol) ->
     lookup_loop H iter f = Ok (pz, sol).
   Proof.
-    induction iter as [b|sp _ tl IH]; intros ret st m ex sl r s l e term E NX f p0 pz0 am0 sol0 IN M; [destruct IN|].
+    induction iter as [b|sp _ tl IH]; intros ret st m ex sl r s l e term E f p0 pz0 am0 sol0 IN M; [destruct IN|].
     destruct (native_step _ _ _ _ _ _ _ _ _ _ _ _ E)
       as (p & pz & am & sol & ext & parent & amt & ab & r1 & s1 & l1 & ex1 & -> & -> & _ & PA & AO & LN & (idx & SC) & _ & E2).
-    cbn [no_extras] in NX. destruct NX as [-> NX].
     cbn [lookup_loop]. unfold parse_coin_spend. cbn [first rest bind atom_of check_nil]. rewrite PA. cbn [bind].
     cbn [spend_tuples In] in IN.
     destruct (negb (bytes_eqb parent (co_parent f)) || negb (amt =? co_amount f)) eqn:C1.
@@ -485,7 +486,7 @@ Section LK.
       destruct IN as [X|IN].
       + exfalso. inversion X; subst. destruct M as (P1 & P2 & P3). inversion P1; subst parent.
         rewrite PA in P2. inversion P2; subst amt. rewrite bytes_eqb_refl, N.eqb_refl in C1. discriminate C1.
-      + exact (IH _ _ _ _ _ _ _ _ _ _ E2 NX f _ _ _ _ IN M).
+      + exact (IH _ _ _ _ _ _ _ _ _ _ E2 f _ _ _ _ IN M).
     - apply Bool.orb_false_elim in C1. destruct C1 as [C1 C2].
       apply Bool.negb_false_iff in C1. apply Bool.negb_false_iff in C2.
       apply bytes_eqb_eq in C1. apply N.eqb_eq in C2.
@@ -500,7 +501,7 @@ Section LK.
         exact (spent_blocks _ _ _ _ _ _ _ _ _ _ _ E2 f j LK2 _ IN M).
       + destruct IN as [X|IN].
         * exfalso. inversion X; subst. destruct M as (_ & _ & P3). rewrite P3, bytes_eqb_refl in C3. discriminate C3.
-        * exact (IH _ _ _ _ _ _ _ _ _ _ E2 NX f _ _ _ _ IN M).
+        * exact (IH _ _ _ _ _ _ _ _ _ _ E2 f _ _ _ _ IN M).
   Qed.
 
   Lemma tuples_spends : forall iter ret st m ex sl r s l e term,
@@ -573,10 +574,9 @@ Section TopLK.
     run_block_generator2 run valid_key sig_ok H K program refs max_cost gf = Ok (b, spends, pairs) ->
     exists out iter,
       native_generator_output run program refs max_cost gf = Ok out /\ first out = Ok iter /\
-      (no_extras iter ->
-       Forall2 (fun sp t => let '(_, pz, _, sol) := t in
-                            get_puzzle_and_solution_for_coin H out (snd (removal_of sp)) = Ok (pz, sol))
-               spends (spend_tuples iter)).
+      Forall2 (fun sp t => let '(_, pz, _, sol) := t in
+                           get_puzzle_and_solution_for_coin H out (snd (removal_of sp)) = Ok (pz, sol))
+              spends (spend_tuples iter).
   Proof.
     unfold run_block_generator2, native_generator_output. intro E.
     destruct (check_generator_quote program gf) as [[]|]; cbn [bind] in E; [|discriminate E].
@@ -595,12 +595,12 @@ Section TopLK.
     destruct (validate_conditions H ret (fast_rev (b_spends_rev ret)) state) as [[]|]; cbn [bind] in E; [|discriminate E].
     destruct (validate_signature sig_ok (g_cond gf) (fast_rev (s_pkm_pairs_rev state))) as [[]|]; cbn [bind] in E; [|discriminate E].
     inversion E; subst; clear E.
-    exists out0, all_spends. split; [reflexivity|]. split; [exact FO|]. intro NX.
+    exists out0, all_spends. split; [reflexivity|]. split; [exact FO|].
     destruct (tuples_spends run valid_key H K (g_cond gf) _ _ _ _ _ _ _ _ _ _ _ NLp) as (news & BS & FA).
     cbn [empty_bundle b_spends_rev] in BS. rewrite app_nil_r in BS. rewrite BS, fast_rev_rev, rev_involutive.
     apply (Forall2_In_impl _ _ _ _ FA). intros sp [[[p pz] am] sol] IN M.
     unfold get_puzzle_and_solution_for_coin. rewrite FO. cbn [bind].
-    exact (lookup_native run valid_key H K (g_cond gf) _ _ _ _ _ _ _ _ _ _ _ NLp NX _ _ _ _ _ IN M).
+    exact (lookup_native run valid_key H K (g_cond gf) _ _ _ _ _ _ _ _ _ _ _ NLp _ _ _ _ _ IN M).
   Qed.
 End TopLK.
 
@@ -673,6 +673,73 @@ Proof.
   destruct c as [cp cph ca]. cbn in *. subst cp. reflexivity.
 Qed.
 
+(* the helper never reports the empty hint *)
+Lemma ar_hint_nonempty t : ar_hint t <> Some [].
+Proof.
+  unfold ar_hint. destruct t as [|[|[h|] ?] ?]; try discriminate.
+  destruct h as [|b0 bt]; [cbn; discriminate|].
+  destruct (negb (Nat.eqb (length (b0 :: bt)) 0) && Nat.leb (length (b0 :: bt)) 32); discriminate.
+Qed.
+
+Lemma ar_condition_hint c ph amt h : ar_condition c = Ok (Some (ph, amt, h)) -> h <> Some [].
+Proof.
+  unfold ar_condition. intro E.
+  destruct (first c) as [op|]; cbn [bind] in E; [|discriminate E].
+  destruct op as [opb|]; [|discriminate E].
+  destruct (negb (bytes_eqb opb [n2b CREATE_COIN])); [discriminate E|].
+  destruct (rest c) as [c1|]; cbn [bind] in E; [|discriminate E].
+  destruct c1 as [|pht [|amount hint]]; try discriminate E.
+  destruct (bytes32_of pht); [|discriminate E].
+  destruct (parse_amount amount InvalidCoinAmount); cbn [bind] in E; [|discriminate E].
+  inversion E; subst. apply ar_hint_nonempty.
+Qed.
+
+Lemma ar_conditions_hints iter sid : forall acc out,
+  ar_conditions iter sid acc = Ok out -> Forall hint_nonempty acc -> Forall hint_nonempty out.
+Proof.
+  induction iter as [b|c _ nxt IH]; intros acc out E FA; cbn [ar_conditions] in E.
+  - destruct b; [|discriminate E]. inversion E; subst. exact FA.
+  - destruct (ar_condition c) as [r|] eqn:AC; cbn [bind] in E; [|discriminate E].
+    apply (IH _ _ E). destruct r as [[[ph amt] h]|]; cbn [ar_push]; [|exact FA].
+    constructor; [|exact FA]. unfold hint_nonempty. cbn [snd]. exact (ar_condition_hint _ _ _ _ AC).
+Qed.
+
+Section Hints.
+  Variable run : sexp -> sexp -> N -> res (N * sexp).
+  Variable H : bytes -> bytes.
+
+  Lemma ar_loop_hints : forall iter m adds rems adds' rems',
+    ar_loop run H iter m adds rems = Ok (adds', rems') -> Forall hint_nonempty adds -> Forall hint_nonempty adds'.
+  Proof.
+    induction iter as [b|spend _ tl IH]; intros m adds rems adds' rems' E FA; cbn [ar_loop] in E.
+    - inversion E; subst. exact FA.
+    - destruct spend as [|p [|pz [|am [|sol ext]]]]; try discriminate E.
+      destruct (bytes32_of p); [|discriminate E].
+      destruct (parse_amount am InvalidCoinAmount); cbn [bind] in E; [|discriminate E].
+      destruct (run_program run pz sol m) as [[c conds]|]; cbn [bind] in E; [|discriminate E].
+      destruct (subtract_cost m c); cbn [bind] in E; [|discriminate E].
+      match type of E with context [ar_conditions conds ?sid adds] =>
+        destruct (ar_conditions conds sid adds) as [adds1|] eqn:AC; cbn [bind] in E; [|discriminate E] end.
+      exact (IH _ _ _ _ _ E (ar_conditions_hints _ _ _ _ AC FA)).
+  Qed.
+
+  Lemma additions_hints program refs gf adds rems :
+    additions_and_removals run H program refs gf = Ok (adds, rems) -> Forall hint_nonempty adds.
+  Proof.
+    unfold additions_and_removals. intro E.
+    destruct (deser_program program) as [prog|]; cbn [bind] in E; [|discriminate E].
+    destruct (setup_generator_args refs gf) as [args|]; cbn [bind] in E; [|discriminate E].
+    destruct (run_program run prog args MAX_BLOCK_COST_CLVM) as [[c out]|]; cbn [bind] in E; [|discriminate E].
+    destruct (subtract_cost MAX_BLOCK_COST_CLVM c) as [cl|]; cbn [bind] in E; [|discriminate E].
+    destruct (first out) as [all_spends|]; cbn [bind] in E; [|discriminate E].
+    destruct (prepass all_spends) as [[]|]; cbn [bind] in E; [|discriminate E].
+    match type of E with context [ar_loop run H ?it ?m [] []] =>
+      destruct (ar_loop run H it m [] []) as [[a r]|] eqn:AL; cbn [bind] in E; [|discriminate E] end.
+    inversion E; subst. rewrite fast_rev_rev. apply Forall_rev.
+    exact (ar_loop_hints _ _ _ _ _ _ AL (Forall_nil _)).
+  Qed.
+End Hints.
+
 Section Top.
   Variable run : sexp -> sexp -> N -> res (N * sexp).
   Variable valid_key : bytes -> bool.
@@ -684,19 +751,17 @@ Section Top.
   Theorem trusted_additions_and_removals program refs max_cost gf b spends pairs :
     run_block_generator2 run valid_key sig_ok H K program refs max_cost gf = Ok (b, spends, pairs) ->
     max_cost <= MAX_BLOCK_COST_CLVM ->
-    exists adds,
-      additions_and_removals run H program refs gf = Ok (adds, map removal_of spends) /\
-      map fst adds = map fst (concat (map expected_additions spends)) /\
-      (~ known_class_empty_hint adds -> adds = concat (map expected_additions spends)).
+    additions_and_removals run H program refs gf =
+      Ok (concat (map expected_additions spends), map removal_of spends).
   Proof.
     intros E LM. destruct (ar_correct run valid_key sig_ok H K run_exact _ _ _ _ _ _ _ E LM) as (groups & AR & FG).
-    exists (concat groups). split; [exact AR|]. split.
-    - clear AR E. induction FG as [|sp g sps gs G FG IH]; [reflexivity|].
-      cbn [map concat]. rewrite !map_app, IH, (group_coins _ _ G). reflexivity.
-    - intro NK. clear AR E. induction FG as [|sp g sps gs G FG IH]; [reflexivity|].
-      cbn [map concat]. f_equal.
-      + apply (group_expected _ _ G). intros c IN. apply NK. exists c. cbn [concat]. apply in_or_app. left. exact IN.
-      + apply IH. intros [c IN]. apply NK. exists c. cbn [concat]. apply in_or_app. right. exact IN.
+    pose proof (additions_hints run H _ _ _ _ _ AR) as NH.
+    rewrite AR. f_equal. f_equal. clear AR E.
+    induction FG as [|sp g sps gs G FG IH]; [reflexivity|].
+    cbn [map concat] in *. apply Forall_app in NH. destruct NH as [NH1 NH2]. f_equal.
+    - apply (group_expected _ _ G). intros c IN.
+      rewrite Forall_forall in NH1. exact (NH1 _ IN eq_refl).
+    - exact (IH NH2).
   Qed.
 End Top.
 
@@ -705,14 +770,14 @@ End Top.
 Lemma toy_exact_ok H : run_exact_hyp (toy_run H).
 Proof. exact (toy_exact H). Qed.
 
-Lemma hints_refuted :
+(* the former witness of F-C09-1: an empty-atom first memo is reported as "no hint" by the helper as by validation *)
+Lemma empty_memo_example :
   exists run H, run_exact_hyp run /\
   exists vk sig K program refs max_cost gf b spends pairs adds rems,
     max_cost <= MAX_BLOCK_COST_CLVM /\
     run_block_generator2 run vk sig H K program refs max_cost gf = Ok (b, spends, pairs) /\
     additions_and_removals run H program refs gf = Ok (adds, rems) /\
-    map snd adds = [Some []] /\
-    map snd (concat (map expected_additions spends)) = [None].
+    map snd adds = [None] /\ adds = concat (map expected_additions spends).
 Proof.
   exists (toy_run sha256), sha256. split; [apply toy_exact_ok|].
   exists (fun _ => false), (fun _ => true), K0, EMPTY_MEMO_GENERATOR, [], 11000000000, (gflags_of_bits 0).
@@ -722,18 +787,19 @@ Proof.
   split; vm_compute; reflexivity.
 Qed.
 
-Lemma lookup_extras_refuted :
+(* the former witness of F-C09-2: the coin of a spend tuple with a spend-level extra is looked up successfully *)
+Lemma lookup_extras_example :
   exists run H, run_exact_hyp run /\
-  exists vk sig K program refs max_cost gf b sp pairs out,
+  exists vk sig K program refs max_cost gf b sp pairs out ps,
     run_block_generator2 run vk sig H K program refs max_cost gf = Ok (b, [sp], pairs) /\
     native_generator_output run program refs max_cost gf = Ok out /\
-    (exists e, get_puzzle_and_solution_for_coin H out (snd (removal_of sp)) = Err e).
+    get_puzzle_and_solution_for_coin H out (snd (removal_of sp)) = Ok ps.
 Proof.
   exists (toy_run sha256), sha256. split; [apply toy_exact_ok|].
   exists (fun _ => false), (fun _ => true), K0, EXTRAS_GENERATOR, [], 11000000000, (gflags_of_bits 0).
-  do 4 eexists.
+  do 5 eexists.
   split; [vm_compute; reflexivity|]. split; [vm_compute; reflexivity|].
-  eexists. vm_compute. reflexivity.
+  vm_compute. reflexivity.
 Qed.
 
 (* non-vacuity: an accepted block with a real hint, for which the helper agrees with validation *)
@@ -744,13 +810,12 @@ Lemma trusted_example :
     max_cost <= MAX_BLOCK_COST_CLVM /\
     run_block_generator2 run vk sig H K program refs max_cost gf = Ok (b, spends, pairs) /\
     additions_and_removals run H program refs gf = Ok (adds, map removal_of spends) /\
-    ~ known_class_empty_hint adds /\ map snd adds = [Some (repeat x33 32)].
+    map snd adds = [Some (repeat x33 32)].
 Proof.
   exists (toy_run sha256), sha256. split; [apply toy_exact_ok|].
   exists (fun _ => false), (fun _ => true), K0, HINT32_GENERATOR, [], 11000000000, (gflags_of_bits 0).
   do 4 eexists.
   split; [unfold MAX_BLOCK_COST_CLVM; lia|].
   split; [vm_compute; reflexivity|]. split; [vm_compute; reflexivity|].
-  split; [|vm_compute; reflexivity].
-  intros [c IN]. vm_compute in IN. destruct IN as [X|[]]. discriminate X.
+  vm_compute; reflexivity.
 Qed.
